@@ -92,7 +92,7 @@ def c05_jobs(tier):
 
 def c17_jobs(tier):
     jobs = [sim("c17-hostile", "c17", require_counters=["hostile_requests_answered"]),
-            sim("c17-lifecycle", "c14r", require_counters=["rejected_creates"], require_nontrivial=False),
+            sim("c17-lifecycle", "c14r", require_counters=["rejected_creates", "odd_endpoints_accepted"], require_nontrivial=False),
             # the full hyper/h2 path: a status that cannot be delivered shows as a broken stream only there
             sim("c17-hostile-h2q", "c17", transport="h2", episodes=1200, require_counters=["hostile_requests_answered"])]
     if tier == "thorough":
